@@ -72,6 +72,7 @@ def plan(tier, seed):
     for c in range(8):
         shards.append(("sched", c, 8, tier))
     shards.append(("sparsescan", tier))
+    shards.append(("callers", tier))
     # visit order depends on the seed (results do not)
     k = seed % max(1, len(shards))
     return shards[k:] + shards[:k]
@@ -450,7 +451,51 @@ def _run_sparsescan(desc):
     return sh
 
 
+def _run_callers(desc):
+    """the sparse labelling kernels are declared threadsafe (the GIL is released): two calls on DIFFERENT frames run as two logical
+    threads on the schedule-exploring runtime; every interleaving at the words both touch (within 2 preemptions); each call's labels
+    are what the call produces alone"""
+    _, tier = desc
+    from vt.vrt import VRT, callers_interfere
+    from vt.sani import Call, A, I, F
+    sh = Shard()
+    V = VRT()
+    frames = []
+    for code in (364, 531440 % 19683, 88573 % 19683, 9841, 3280, 14762, 19682, 12345):
+        t = ((code // 3 ** np.arange(9)) % 3).reshape(3, 3)
+        ii, jj = np.nonzero(t > 0)
+        if len(ii):
+            frames.append((ii.astype(np.uint16), jj.astype(np.uint16), np.where(t[ii, jj] == 2, 9.0, 3.0).astype(np.float32)))
+
+    def spec(kern, f):
+        ii, jj, v = f
+        n = len(ii)
+        if kern == "sparse_connectedpixels":
+            return Call(kern, [A(v), A(ii), A(jj), I(n), F(0.5), A(np.full(n, -3, np.int32), "out")])
+        return Call(kern, [A(v), A(ii), A(jj), I(n), F(0.5), A(np.full(n, -3, np.int32), "out"), A(np.zeros(5 * 5, np.int32), "io"), I(3), I(3)])
+    pairs = [(a, b) for a in range(len(frames)) for b in range(len(frames)) if a != b]
+    if tier == "quick":
+        pairs = pairs[::3]
+    for a, b in pairs:
+        for ka, kb in (("sparse_connectedpixels", "sparse_connectedpixels"), ("sparse_connectedpixels", "sparse_connectedpixels_splat"),
+                       ("sparse_connectedpixels_splat", "sparse_connectedpixels_splat")):
+            bad, r = callers_interfere(V, spec(ka, frames[a]), spec(kb, frames[b]))
+            case = {"kind": "callers", "frames": [a, b], "kernels": [ka, kb]}
+            for sched in (bad or [])[:1]:
+                sh.violation("concurrent-callers:%s-and-%s-interfere" % (ka, kb), dict(case, schedule=sched), {"conflict_words": r["filter_size"]})
+            sh.states += r["nodes"]
+            sh.transitions += r["nodes"] - 1 + r["executions"]
+            sh.count("caller_pair_executions", r["total_executions"])
+            sh.count("caller_pair_conflict_words", r["filter_size"])
+            sh.evaluations += 1
+            sh.nontrivial += 1
+    sh.sample(case, limit=1)
+    return sh
+
+
 def run_shard(desc):
+    if desc[0] == "callers":
+        return _run_callers(desc)
     if desc[0] == "sparsescan":
         return _run_sparsescan(desc)
     if desc[0] == "sched":
@@ -466,6 +511,10 @@ def replay(case):
     from ImageD11 import cImageD11 as cI, sparseframe as sf, labelimage
     import io
     sh = Shard()
+    if case["kind"] == "callers":
+        r = _run_callers(("callers", "thorough"))
+        v = [x for x in r.violations if x["case"]["frames"] == case["frames"] and x["case"]["kernels"] == case["kernels"]]
+        return (not v), {"violations": v[:2]}
     if case["kind"] == "sparsescan":
         r = _run_sparsescan(("sparsescan", "thorough"))
         v = [x for x in r.violations if x["case"]["frames"] == case["frames"] and x["case"]["threshold"] == case["threshold"] and x["case"]["countall"] == case["countall"]]
